@@ -77,6 +77,12 @@
 (*                             insensitively); FALSE = as found (C11-4),    *)
 (*                             C11_mc_case_asfound.cfg keeps its            *)
 (*                             counterexample                               *)
+(*     PgNoMirrors = TRUE      /repo since ac54726 (the next page link of   *)
+(*                             TagList / ReferrerList is requested only     *)
+(*                             from the host that returned it); FALSE = as  *)
+(*                             found (C11-5): walked over the mirrors,      *)
+(*                             C11_mc_page_asfound.cfg keeps its            *)
+(*                             counterexample                               *)
 (*     HonorsHost = FALSE      AuthCreds still ignores its host argument   *)
 (*                             (S3, known finding C11-1); TRUE models its  *)
 (*                             repair                                      *)
@@ -90,6 +96,8 @@ EXTENDS AuthObl, Naturals, Sequences, FiniteSets, TLC
 CONSTANTS
   HonorsHost,       \* AuthCreds returns credentials only for the clientHost's own hostname (not in /repo: S3)
   SchemeBound,      \* no credentials on a http URL of a host configured for TLS (in /repo since 14e04da)
+  PgNoMirrors,      \* the next page link of a listing is requested only from the host that served the previous
+                    \* page, with that host's clientHost (in /repo since ac54726)
   FoldCase,         \* authAllowed compares host names case insensitively (in /repo since f7f5652)
   StripOnRedirect,  \* Authorization is removed when a redirect leaves the host, also to a sub domain (since 7d8bea3)
   MaxFaults,        \* number of replies (registry or token server) that differ from the natural one
@@ -220,7 +228,7 @@ Prog(op) ==
     \* tag.go:TagList with a second page; referrer.go:referrerListByAPI with a second page, fall back to the
     \* referrers tag (obj k) when the API request fails (IgnoreErr)
     [] op = "tags"  -> << S("A", "r1", "GET", "g", TRUE, <<>>, 2, 0), S("A", "r1", "GET", "g", TRUE, Pg, 99, 0) >>
-    [] op = "refs"  -> << Ign(S("A", "r1", "GET", "f", TRUE, <<>>, 2, 3)), S("A", "r1", "GET", "f", TRUE, Pg, 99, 0),
+    [] op = "refs"  -> << Ign(S("A", "r1", "GET", "f", TRUE, <<>>, 2, 3)), S("A", "r1", "GET", "f", TRUE, Pg, 99, 3),
                           S("A", "r1", "GET", "k", TRUE, <<>>, 99, 0) >>
     [] op = "refsfb" -> << N404(Ign(S("A", "r1", "GET", "f", TRUE, <<>>, 99, 2))), S("A", "r1", "GET", "k", TRUE, <<>>, 99, 0) >>
     \* manifest with a subject on a registry without referrers API: referrerPut reads and writes the tag
@@ -349,7 +357,9 @@ RetryHost ==  \* retryHost after a good challenge
 (***************************************************************************)
 StartDo ==
   /\ ph = "idle" /\ Running
-  /\ hosts' = IF Step.mir /\ cf.mirror /\ Step.reg = "A" THEN <<"M", "A">> ELSE <<Step.reg>>
+  /\ hosts' = IF PgNoMirrors /\ Step.direct = Pg
+               THEN <<IF cf.mirror /\ Step.reg = "A" /\ loc[1] = "M" THEN "M" ELSE Step.reg>>   \* hostByURL: the host that
+               ELSE IF Step.mir /\ cf.mirror /\ Step.reg = "A" THEN <<"M", "A">> ELSE <<Step.reg>>  \* served the page
   /\ cur' = 1 /\ ph' = "attempt" /\ again' = FALSE /\ sg' = ""
   /\ UNCHANGED <<cf, pc, rq, tk, gc, loc, sess, au, nf, named, leaks, wire, script>>
 
@@ -596,6 +606,9 @@ NoLeak == leaks = {}
 LeaksOnlyS3 == \A l \in leaks : l.via = "foreign-handler"
 \* (with FoldCase = FALSE, the code before f7f5652, LeaksOnlyS3 is violated: a handler keyed by a mixed-case
 \* spelling of the registry's own name sends its credentials over http, via = "other-spelling")
+\* without redirects and upload locations no credential of one configured registry reaches another one
+\* (violated by the page links walked over the mirrors, PgNoMirrors = FALSE, the code before ac54726)
+NoCrossConfigured == \A l \in leaks : ~(l.k = "O1" /\ l.o \in Regs /\ l.to \in Regs)
 \* the code as found leaked, but only through these three mechanisms; in particular a
 \* credential chosen by a handler that is keyed by the clientHost's own hostname never reaches
 \* another host (registries, mirror and upstream stay separated whatever the servers do)
